@@ -77,9 +77,18 @@ fn main() {
         "rtdump" => {
             // debugging aid: `rtdump <dwarf 0|1> <hexfile> <outprefix>`: emit, re-parse, emit; write both
             let wasm = out::unhex(std::fs::read_to_string(&args[3]).unwrap().trim());
+            // args[2]: `1`/`0` (DWARF switch) or four bits: skip name, skip producers, DWARF, preserve
+            let bits: Vec<char> = args[2].chars().collect();
             let mk = || {
                 let mut c = walrus::ModuleConfig::new();
-                c.generate_dwarf(args[2] == "1");
+                if bits.len() >= 4 {
+                    c.generate_name_section(bits[0] != '1');
+                    c.generate_producers_section(bits[1] != '1');
+                    c.generate_dwarf(bits[2] == '1');
+                    c.preserve_code_transform(bits[3] == '1');
+                } else {
+                    c.generate_dwarf(args[2] == "1");
+                }
                 c
             };
             let b1 = mk().parse(&wasm).unwrap().emit_wasm();
